@@ -86,7 +86,7 @@ pub struct Db {
 }
 
 pub const TYPE_NAMES: &[&str] = &[
-    "Dual", "Dual2", "Dual3", "HyperDual", "HyperHyperDual", "DualVec", "Dual2Vec", "HyperDualVec", "Derivative",
+    "Dual", "Dual2", "Dual3", "HyperDual", "HyperHyperDual", "DualVec", "Dual2Vec", "HyperDualVec", "Derivative", "F64",
 ];
 
 pub fn type_last_ident(t: &Type) -> Option<(String, bool)> {
@@ -207,7 +207,12 @@ impl Db {
     }
 
     fn add_impl(&mut self, im: &ItemImpl) {
-        let Some((ty, self_ref)) = type_last_ident(&im.self_ty) else { return };
+        let Some((mut ty, self_ref)) = type_last_ident(&im.self_ty) else { return };
+        // the plain-float instance of the generic interface (f32 is the same macro text)
+        if ty == "f64" && im.trait_.as_ref().map(|t| t.1.segments.last().unwrap().ident == "DualNum").unwrap_or(false) {
+            ty = "F64".to_string();
+            self.types.entry("F64".into()).or_insert(TypeInfo { name: "F64".into(), parts: vec![], generics: vec![], line: im.span().start().line });
+        }
         if !TYPE_NAMES.contains(&ty.as_str()) {
             return;
         }
@@ -261,13 +266,15 @@ impl Db {
                         format!("_{s}{r}")
                     }
                     Some(t) if INHERENT_TRAITS.contains(&t.as_str()) || t == "Clone" => "".into(),
-                    Some(t) if t == "ComplexField" || t == "RealField" => "".into(),
+                    Some(t) if t == "ComplexField" || t == "RealField" || t == "PartialEq" || t == "PartialOrd" => "".into(),
                     Some(t) => format!("_{}", t),
                     None => "".into(),
                 };
                 let prefix = match trait_.as_deref() {
                     Some("ComplexField") => "cf_",
                     Some("RealField") => "rf_",
+                    Some("PartialEq") => "pe_",
+                    Some("PartialOrd") => "po_",
                     _ => "",
                 }
                 .to_string();
@@ -303,7 +310,7 @@ impl Db {
 
     /// nalgebra field-trait method (by-value receiver: found before the auto-ref'd DualNum / Signed methods)
     pub fn find_field_method(&self, ty: &str, name: &str) -> Option<&Func> {
-        self.funcs.iter().find(|f| f.ty == ty && f.name == name && !f.prefix.is_empty())
+        self.funcs.iter().find(|f| f.ty == ty && f.name == name && (f.prefix == "cf_" || f.prefix == "rf_"))
     }
 
     pub fn find_op(&self, ty: &str, tr: &str, self_ref: bool, rhs: &Rhs) -> Option<&Func> {
